@@ -76,11 +76,14 @@ def oracle_run(cfg):
             Jm = torch.stack(cols, 1)
             x = torch.tensor(r.standard_normal(shp), requires_grad=True)
             outs = outs_of(fwd(x))
-            gs = [torch.tensor(r.standard_normal(tuple(t.shape))) for t in outs]
-            gx, = torch.autograd.grad(outs, [x], gs)
-            want = Jm.t() @ torch.cat([g.reshape(-1) for g in gs])
-            ok, msg = tol_close(gx.reshape(-1).numpy(), want.numpy(), max(1.0, float(want.abs().max())))
-            return None if ok else dict(detail='grad != J^T g: ' + msg)
+            for fam, gs in cot_families(r, [t.shape for t in outs]):
+                gx, = torch.autograd.grad(outs, [x], gs, retain_graph=True)
+                want = Jm.t() @ torch.cat([g.reshape(-1) for g in gs])
+                sc = float(want.abs().max())
+                ok, msg = tol_close(gx.reshape(-1).numpy(), want.numpy(), sc if 0 < sc < 1 else max(1.0, sc))
+                if not ok:
+                    return dict(detail='grad != J^T g for cotangent [%s]: %s' % (fam, msg))
+            return None
         fwd = DTCWTForward(biort=cfg['biort'], qshift=cfg['qshift'], J=J, o_dim=o, ri_dim=ri)
         inv = DTCWTInverse(biort=cfg['biort'], qshift=cfg['qshift'], o_dim=o, ri_dim=ri)
         with torch.no_grad():
@@ -98,19 +101,20 @@ def oracle_run(cfg):
         Jm = _JINV[key]
         args = [torch.tensor(r.standard_normal(tuple(t.shape)), requires_grad=bool(s)) for t, s in zip(ins0, cfg['subset'])]
         y = inv((args[0], args[1:]))
-        g = torch.tensor(r.standard_normal(tuple(y.shape)))
         req = [a for a, s in zip(args, cfg['subset']) if s]
-        grads = torch.autograd.grad([y], req, [g], allow_unused=True)
-        want = Jm.t() @ g.reshape(-1); off = np.cumsum([0] + sizes); gi = 0
-        for a, s in enumerate(cfg['subset']):
-            if not s: continue
-            gr = grads[gi]; gi += 1
-            if gr is None:
-                return dict(detail='argument %d requires grad but received None' % a)
-            w = want[off[a]:off[a + 1]]
-            ok, msg = tol_close(gr.reshape(-1).numpy(), w.numpy(), max(1.0, float(want.abs().max())))
-            if not ok:
-                return dict(detail='argument %d grad != J^T g: %s' % (a, msg))
+        for fam, (g,) in cot_families(r, [y.shape]):
+            grads = torch.autograd.grad([y], req, [g], allow_unused=True, retain_graph=True)
+            want = Jm.t() @ g.reshape(-1); off = np.cumsum([0] + sizes); gi = 0
+            sc = float(want.abs().max()); sc = sc if 0 < sc < 1 else max(1.0, sc)
+            for a, s in enumerate(cfg['subset']):
+                if not s: continue
+                gr = grads[gi]; gi += 1
+                if gr is None:
+                    return dict(detail='argument %d requires grad but received None' % a)
+                w = want[off[a]:off[a + 1]]
+                ok, msg = tol_close(gr.reshape(-1).numpy(), w.numpy(), sc)
+                if not ok:
+                    return dict(detail='argument %d grad != J^T g for cotangent [%s]: %s' % (a, fam, msg))
         return None
     except Exception as e:
         return dict(error='%s: %s' % (type(e).__name__, str(e)[:200]))
